@@ -833,6 +833,15 @@ func (g *Gen) run() {
 	g.modsets, g.modAll = modsets, modAll
 	g.pass = 2
 	g.translate()
+	// a clause pinned to one return (label ..._retN) that matched no reachable return would be
+	// silently vacuous: report it as a contract-binding error instead
+	if g.fc != nil {
+		for _, cl := range g.fc.Clauses {
+			if cl.Kind == "ensures" && retSuffixRe.MatchString(cl.Label) && !g.usedAxioms["rethit:"+cl.Label] {
+				g.errorf("%s: clause [%s] names a return that does not exist or is unreachable (returns are numbered in source order; %d returns)", g.fnLabel(), cl.Label, len(g.retOrdinal))
+			}
+		}
+	}
 }
 
 func (g *Gen) translate() {
